@@ -54,7 +54,8 @@ RULE = (
     "default limit box are excluded from the standard range and judged under a separate key in the wide range. "
     "Invariant items: 14 circuit shapes (3..14 elements, incl. labels, W/Wo/Ws/"
     "Zarc/La/Tlm), per-parameter limit boxes {class default, tight around start, excluding the optimum, one-sided, above/"
-    "below the class defaults}, random fixed subsets, 0-1% noise, one (method, weight) cell per fit cycling through all "
+    "below the class defaults}, boundary cases (fixed and free start values exactly on a user or class-default limit, e.g. n=1, R=0, "
+    "L=0, n=0.5 in [0.5, 1]), random fixed subsets, 0-1% noise, one (method, weight) cell per fit cycling through all "
     "9x4 cells (plus method/weight lists and pool runs, max_nfev in {unlimited, 40, 400}), optional constraint expressions of 6 "
     "kinds (incl. auxiliary variables named like <name>_<element index>). A fit is non-trivial "
     "when it returned and was checked; distinct = distinct (shape, cell, fixed mask, box kinds, constraint kind, labels) keys."
@@ -259,6 +260,56 @@ def gen_inv_item(rng, cell_index):
             return item
 
 
+def _edges(rng, start, sl, kinds, skip):
+    """Boundary cases: with probability 0.45 put one or two parameters EXACTLY on one of their limits - either by moving
+    the limit onto the start value (any box kind; gives both-sided boxes with the value on an edge, n=0.5 in [0.5, 1], ...)
+    or by moving the value onto the limit (user boxes and class-default edges such as n=1.0, R=0 in series, L=0, C=1e3).
+    70% of them are marked fixed (never the last free parameter)."""
+    from pyimpspec import get_elements
+
+    if rng.random() >= 0.45:
+        return
+    classes = get_elements(private=True)
+    cands = []
+    k = 0
+    for i, leaf in enumerate(sl):
+        for name in leaf[2]:
+            if leaf[1] != "Tlm" and (i, name) not in skip:
+                cands.append((i, name, k))
+            k += 1
+    if not cands:
+        return
+    picks = [cands[int(j)] for j in rng.choice(len(cands), size=min(len(cands), int(rng.integers(1, 3))), replace=False)]
+    for i, name, k in picks:
+        leaf = sl[i]
+        p = leaf[2][name]
+        cls = classes[leaf[1]]
+        lo = cls.get_default_lower_limit(name) if p[1] == "default" else (-fm.INF if p[1] is None else float(p[1]))
+        hi = cls.get_default_upper_limit(name) if p[2] == "default" else (fm.INF if p[2] is None else float(p[2]))
+        v = float(p[0])
+        if not (lo < v < hi):
+            continue
+        zero_ok = (leaf[1] in ("L", "La") and name == "L") or (leaf[1] == "R" and i == 0 and start[0] == "S")
+        modes = ["limit-lower", "limit-upper"]
+        if math.isfinite(lo) and (lo != 0.0 or zero_ok) and not (name in _EXPONENTS and lo <= 0.0):
+            modes.append("value-lower")
+        if math.isfinite(hi):
+            modes.append("value-upper")
+        mode = str(rng.choice(modes))
+        if mode == "limit-lower":
+            p[1] = v
+        elif mode == "limit-upper":
+            p[2] = v
+        elif mode == "value-lower":
+            p[0] = lo
+        else:
+            p[0] = hi
+        kinds[k] += ":on-lower" if mode.endswith("lower") else ":on-upper"
+        n_free_others = sum(1 for l2 in sl if l2[1] != "Tlm" for q in l2[2].values() if not q[3] and q is not p)
+        if rng.random() < 0.7 and n_free_others >= 1:
+            p[3] = True
+
+
 def _gen_inv_item(rng, cell_index):
     shapes = [s for s, _ in SHAPES]
     w = np.array([x for _, x in SHAPES], dtype=float)
@@ -327,6 +378,7 @@ def _gen_inv_item(rng, cell_index):
             if leaf[1] != "Tlm":
                 next(iter(leaf[2].values()))[3] = False
                 break
+    _edges(rng, start, sl, kinds, {constrained, source})
     labels = []
     if rng.random() < 0.3:
         pool = [str(x) for x in rng.permutation(_LABELS)]
@@ -502,6 +554,13 @@ def check_fit(item):
                 span = abs(v) * 1e-9 + 1e-300
                 if abs(v - lo[name]) <= span or abs(v - hi[name]) <= span:
                     n_active += 1
+            if float(v0) == lo[name] or float(v0) == hi[name]:  # boundary case: the start value sits exactly on one of its limits
+                edge = "lower" if float(v0) == lo[name] else "upper"
+                bump("fixed_on_limit" if fx[name] else "free_on_limit")
+                bump(("fixed" if fx[name] else "free") + "_on_limit:" + edge)
+                cls_ = type(el)
+                if float(v0) in (cls_.get_default_lower_limit(name), cls_.get_default_upper_limit(name)):
+                    bump(("fixed" if fx[name] else "free") + "_on_class_default_limit")
             if fx[name]:
                 n_fixed += 1
                 if not (float(v).hex() == float(v0).hex()):
@@ -679,7 +738,8 @@ def finalize(agg):
     dead = [c for c, n in returned.items() if n == 0]
     if dead:
         inc.append(f"(method, weight) cells that never returned a result: {dead}")
-    for name in ("params_fixed_checked", "params_at_bound", "constraints_checked", "table_values_checked", "untouched_checked"):
+    for name in ("params_fixed_checked", "params_at_bound", "constraints_checked", "table_values_checked", "untouched_checked",
+                 "fixed_on_limit", "fixed_on_limit:lower", "fixed_on_limit:upper", "fixed_on_class_default_limit", "free_on_limit"):
         if st.get(name, 0) == 0:
             inc.append(f"{name} == 0: the clause was never exercised")
     rec_all = [r for a in agg["aggs"] for r in (a or [])]
